@@ -4,7 +4,7 @@ ENGINES = [
 ]
 NOTES = "All checks: ./run.sh <id> quick|thorough rebuilds the harness against /repo's working tree (replace directive) and rewrites evidence/<id>.json. known_findings.json is read-only at run time."
 NOT_YET = {}
-ENGINES.append({"name": "E2-regen", "path": "/verif/internal/regen, /verif/drivers", "serves_properties": ["C03", "C04", "C05", "C09", "C14", "C20"],
+ENGINES.append({"name": "E2-regen", "path": "/verif/internal/regen, /verif/drivers", "serves_properties": ["C01", "C03", "C04", "C05", "C09", "C14", "C20"],
      "kind_free_text": "regenerate-compile-drive pipeline: specs are generated in process by the generator of the tree under check into a scratch module, compiled with a driver and every case of the bounded space is executed on the regenerated code"})
 CHECKS["C12"] = dict(
     category="exploration", engine="E1-enum",
@@ -84,4 +84,11 @@ CHECKS["C04"] = dict(
     technique="schema-directed bounded-exhaustive enumeration of Go values of regenerated types (and of valid JSON instances) with encode/validate/decode oracles against reference models",
     text="Every schema S of the C03 grammar plus 34 format/default/map leaves becomes a root object {v: S, o: S optional, n: S nullable optional}; 362 (quick) / ~880 (thorough) root types are regenerated. A schema-directed reflective builder enumerates their values: Opt/Nil/OptNil wrappers in every state, nil / empty / 1-3 element slices incl. duplicates, every sum variant and enum value, boundary and extreme numbers, escape-heavy / Unicode / NUL strings, format values at resolution, zero values; single-field variation over a valid base (pairs in thorough): 1.6e4 / 2e5 values. For every value passing its own Validate(): Encode is well-formed JSON (independent parser), valid under the reference validator for the source schema, Decode succeeds and deep-equals (absent/null/present, nil vs empty where nil has a JSON meaning, selected variant), re-encoding is a semantic fixpoint. JSON-first: valid pool instances are decoded, validated and re-encoded to the same value.",
     note="Trusted: internal/jsonref, drivers/refval. Identifications (DESIGN.md C04): nil == empty for maps, for slices without nil semantics and inside nullness-carrying wrappers; unset member with a default decodes as the default; zero values a format cannot represent are outside the domain. Two known findings (zero sum encodes to nothing; property counts validated by the decoder only).",
+)
+
+CHECKS["C01"] = dict(
+    category="exploration", engine="E2-regen",
+    technique="bounded-exhaustive enumeration of parameter values per admitted (in, style, explode, shape, required/optional/default) cell and of body/response exchanges on a regenerated client+server pair, compared end to end",
+    text="328 parameter operations (every admitted cell x 16 shapes incl. int32/int64/float/double/uuid/date/date-time/ipv4/uri/enum, arrays, flat object, map x required/optional/default) and a media spec (JSON with every member kind, form, multipart, text, octet-stream, optional body; 200 with headers, 201, 4XX pattern, default) are regenerated as client + server. 3.2e4 calls per configuration go Client -> in-process transport -> Server -> recording middleware -> recording handler -> scripted response -> Client: handler arguments == caller arguments (defaults filled for absent members), middleware.Request{Params, Body} == handler arguments, caller receives exactly the scripted variant/status/headers/body; a core value must be delivered, any value is delivered unchanged or refused with an error. thorough: second feature configuration (request/response validation, otel, example tests).",
+    note="Trusted: the in-process transport (mimics http.Transport's unknown-length rule), reflect-based equality. Known findings: [] vs [\"\"] wire-form collision in joined array parameters and response headers. Bodies are a fixed member-kind matrix (not the whole schema grammar); webhooks and random specs are not driven.",
 )
